@@ -25,11 +25,15 @@ def design():
                  "responses": [{"status": 200, "headers": {"r2": "X-R2"}}], "errors": [{"name": "e1", "status": 409}]}}]}]}
 
 
+ACCEPTS = {1: "application/json; q=0.9", 2: "application/xml; q=0.8", 3: "application/gob; q=0.7"}
+
+
 def scenarios():
     out = []
     for p in (1, 2, 3):
         tag = "x" * p
-        base = {"service": "s1", "method": "M1"}
+        # each process negotiates a different response format, through an Accept value that needs parsing
+        base = {"service": "s1", "method": "M1", "accept": ACCEPTS[p]}
         out.append(dict(base, id="ok#%d" % p, payload={"a1": 10 + p, "a2": "ab" + tag, "a3": "body" + tag},
                         outcome={"kind": "result", "value": {"r1": 100 + p, "r2": "hdr" + tag}}))
         out.append(dict(base, id="invalid#%d" % p, payload={"a1": 1 - p, "a2": "ab" + tag, "a3": "body" + tag}))
@@ -49,12 +53,31 @@ def scrub(x):
     if isinstance(x, list):
         return [scrub(v) for v in x]
     if isinstance(x, str):
-        return re.sub(r'\\?"id\\?":\\?"[A-Za-z0-9_-]{8}\\?"', '"id":"*"', x)
+        x = re.sub(r'\\?"id\\?":\\?"[A-Za-z0-9_-]{8}\\?"', '"id":"*"', x)
+        return re.sub(r"<id>[A-Za-z0-9_-]{8}</id>", "<id>*</id>", x)
     return x
 
 
 def signature(events):
-    return core.canon(scrub([e for e in events if e.get("ev") in ("client_call", "wire_req", "mw_lookup", "invoke", "service_return", "wire_resp", "client_return")]))
+    """what must be identical between a request served alone and the same request served among others"""
+    evs = [e for e in events if e.get("ev") in ("client_call", "wire_req", "mw_lookup", "invoke", "service_return", "wire_resp", "client_return")]
+    gob = any(e.get("ev") == "wire_resp" and "gob" in " ".join((e.get("headers") or {}).get("Content-Type", [])) for e in evs)
+    if gob:
+        # a gob body carries the error instance id in binary (also inside the client's "invalid response" text):
+        # compare everything but those bytes
+        out = []
+        for e in evs:
+            e = dict(e)
+            if e["ev"] == "wire_resp":
+                e.pop("body", None)
+            if e["ev"] == "client_return" and isinstance(e.get("err"), dict):
+                err = {k: v for k, v in e["err"].items() if k not in ("message", "fields")}
+                if isinstance(err.get("client"), dict):
+                    err["client"] = {k: v for k, v in err["client"].items() if k != "message"}
+                e["err"] = err
+            out.append(e)
+        evs = out
+    return core.canon(scrub(evs))
 
 
 def race_reports(prefix):
